@@ -22,7 +22,7 @@ def prepare():
         if r.returncode != 0:
             sys.exit("worktree: " + r.stdout)
     else:
-        sh("git -C %s checkout -q -- . && git -C %s clean -fdq -e target && git -C %s checkout -q --detach %s" % (REPO, REPO, REPO, head))
+        sh("git -C %s reset -q --hard && git -C %s clean -fdq -e target && git -C %s checkout -q --detach %s && git -C %s reset -q --hard %s" % (REPO, REPO, REPO, head, REPO, head))
     os.makedirs(VERIF, exist_ok=True)
     sh("rsync -a --delete --exclude work --exclude harness/target --exclude .git --exclude evidence /verif/ %s/" % VERIF)
     os.makedirs(os.path.join(VERIF, "evidence"), exist_ok=True)
@@ -40,7 +40,7 @@ def main():
     patch, checks = args[0], args[1:]
     prepare()
     if patch != "none":
-        r = sh("git -C %s apply --3way %s || git -C %s apply %s" % (REPO, patch, REPO, patch))
+        r = sh("git -C %s apply %s || (git -C %s apply --3way %s && git -C %s reset -q)" % (REPO, patch, REPO, patch, REPO))
         if r.returncode != 0:
             print("PATCH-FAILED", r.stdout[-500:])
             return 3
@@ -49,10 +49,12 @@ def main():
         r = sh("./check %s --tier %s" % (c, tier), cwd=VERIF, timeout=7200)
         lines = [l for l in r.stdout.splitlines() if l.startswith(("VIOLATION", "KNOWN-FINDING", "TOOL-ERROR"))]
         detail = [l for l in r.stdout.splitlines() if l.strip().startswith("->")]
-        print("%s exit=%d %.0fs %s %s" % (c, r.returncode, time.time() - t0, (lines[0] if lines else ""), (detail[0][:200] if detail else "")), flush=True)
+        diff = sh("git -C %s diff --stat | tail -1" % REPO).stdout.strip()
+        viol = [l for l in lines if l.startswith("VIOLATION")]
+        print("%s exit=%d %.0fs [%s] %s %s" % (c, r.returncode, time.time() - t0, diff, (viol[0] if viol else (lines[0][:80] if lines else "")), (detail[0][:200] if detail else "")), flush=True)
         if r.returncode == 2:
             print(r.stdout[-1500:])
-    sh("git -C %s checkout -q -- . && git -C %s clean -fdq -e target" % (REPO, REPO))
+    sh("git -C %s reset -q --hard && git -C %s clean -fdq -e target" % (REPO, REPO))
     return 0
 
 
